@@ -105,7 +105,11 @@ pub fn alphabet() -> Vec<Op> {
 type Model = BTreeMap<u64, TrackDump>;
 
 fn status_of(t: &TrackDump) -> u8 {
-    (t.counter % 3) as u8
+    // 0 Pending, 1 Ready, 2 Wasted, 9 = the status computation fails (same code as status_code gives an Err)
+    match t.counter % 4 {
+        3 => 9,
+        c => c as u8,
+    }
 }
 
 fn status_code(s: &anyhow::Result<TrackStatus>) -> u8 {
